@@ -35,9 +35,11 @@ theorem pres_createCheckpoint {w w1 : World} {caller a : Nat} {hs : Bool} {v spe
   | ok cp =>
     exact Pres.of_step hn hB (op := .create caller a hs v spec) (cps := []) (cps' := [] ++ [cp])
       (by simp only [step, t1]) rfl k hnamed (fun _ => hfund)
+      (NGrow.of_js (keys_createAccountCheckpoint t1))
   | error e =>
     exact Pres.of_step hn hB (op := .create caller a hs v spec) (cps := []) (cps' := [])
       (by simp only [step, t1]) rfl k hnamed (fun _ => hfund)
+      (NGrow.of_js (keys_createAccountCheckpoint t1))
 
 theorem pres_setCode {w w1 : World} {a hash : Nat} (h : journalOps.setCode w a hash = .ok w1) : Pres L B w w1 := by
   simp only [journalOps] at h
@@ -47,12 +49,14 @@ theorem pres_setCode {w w1 : World} {a hash : Nat} (h : journalOps.setCode w a h
   have t1 := Proofs.EvmHost.ofOpt_ok h1
   exact Pres.of_step hn hB (op := .setCode a hash) (cps := []) (cps' := [])
     (by simp only [step, t1, Option.map_some]) rfl (kle_setCode t1) (fun x hx => nomatch hx) (fun _ => trivial)
+    (NGrow.of_js (keys_setCode t1))
 
 theorem pres_incNonce {w : World} {a : Nat} {js : Journal.JState} {r : Option Nat}
     (h : ofOpt "inc_nonce" (Journal.incNonce w.js a) = .ok (js, r)) : Pres L B w { w with js := js } := by
   have t1 := Proofs.EvmHost.ofOpt_ok h
   exact Pres.of_step hn hB (op := .incNonce a) (cps := []) (cps' := [])
     (by simp only [step, t1, Option.map_some]) rfl (kle_incNonce t1) (fun x hx => nomatch hx) (fun _ => trivial)
+    (NGrow.of_js (keys_incNonce t1))
 
 omit hn hB in
 theorem addCode_db_basic (w : World) (h : Nat) (c : List Nat) : (w.addCode h c).db.basic = w.db.basic := by
@@ -63,7 +67,7 @@ theorem addCode_db_basic (w : World) (h : Nat) (c : List Nat) : (w.addCode h c).
 
 omit hn hB in
 theorem pres_addCode (w : World) (h : Nat) (c : List Nat) : Pres L B w (w.addCode h c) :=
-  Pres.of_same (addCode_db_basic w h c) (addCode_js w h c)
+  Pres.of_same (addCode_db_basic w h c) (addCode_js w h c) (ng_addCode w h c)
 
 /-- **every `Host` answer preserves the ledger invariant** -/
 theorem pres_answer {he : HostEnv} {w w1 : World} {op : Interp.HostOp} {resp : Interp.HostResp}
@@ -115,6 +119,7 @@ theorem pres_answer {he : HostEnv} {w w1 : World} {op : Interp.HostOp} {resp : I
     exact Pres.of_step hn hB (op := .sload a k) (cps := []) (cps' := [])
       (by simp only [step, t1, Option.map_some, Proofs.EvmHost.noteSlot_js]) (by rw [noteSlot_db]; rfl)
       (by rw [Proofs.EvmHost.noteSlot_js]; exact kle_sload t1) (fun x hx => nomatch hx) (fun _ => trivial)
+      ((NGrow.of_js (keys_sload t1)).noteSlot a k)
   | sstore a k v =>
     simp only [answer] at h
     obtain ⟨⟨js, o, p, n, c⟩, h1, h⟩ := bind_ok h
@@ -124,6 +129,7 @@ theorem pres_answer {he : HostEnv} {w w1 : World} {op : Interp.HostOp} {resp : I
     exact Pres.of_step hn hB (op := .sstore a k v) (cps := []) (cps' := [])
       (by simp only [step, t1, Option.map_some, Proofs.EvmHost.noteSlot_js]) (by rw [noteSlot_db]; rfl)
       (by rw [Proofs.EvmHost.noteSlot_js]; exact kle_sstore t1) (fun x hx => nomatch hx) (fun _ => trivial)
+      ((NGrow.of_js (keys_sstore t1)).noteSlot a k)
   | tstore a k v =>
     simp only [answer] at h
     obtain ⟨js, h1, h⟩ := bind_ok h
@@ -132,11 +138,13 @@ theorem pres_answer {he : HostEnv} {w w1 : World} {op : Interp.HostOp} {resp : I
     have t1 := Proofs.EvmHost.ofOpt_ok h1
     exact Pres.of_step hn hB (op := .tstore a k v) (cps := []) (cps' := [])
       (by simp only [step, t1, Option.map_some]) rfl (kle_tstore t1) (fun x hx => nomatch hx) (fun _ => trivial)
+      (NGrow.of_js (keys_tstore t1))
   | log a t d =>
     simp only [answer, pure, Except.pure, Except.ok.injEq, Prod.mk.injEq] at h
     rw [← h.2]
     exact Pres.of_step hn hB (op := .log w.logs.length) (cps := []) (cps' := []) (by simp only [step]) rfl
       (KLe.of_state_eq rfl) (fun x hx => nomatch hx) (fun _ => trivial)
+      (NGrow.of_keys (l := []) (Keys.of_state_eq rfl) (fun _ hx => hx) (fun x hx => nomatch hx))
   | selfdestruct a t =>
     simp only [answer] at h
     obtain ⟨⟨js, hv, te, pd, c⟩, h1, h⟩ := bind_ok h
@@ -147,6 +155,7 @@ theorem pres_answer {he : HostEnv} {w w1 : World} {op : Interp.HostOp} {resp : I
     refine Pres.of_step hn hB (op := .selfdestruct a t) (cps := []) (cps' := [])
       (by simp only [step, t1, Option.map_some, Proofs.EvmHost.noteAddr_js]) (by rw [Proofs.EvmHost.noteAddr_db]; rfl)
       (by rw [Proofs.EvmHost.noteAddr_js]; exact k) ?_ (fun _ => trivial)
+      (NGrow.of_js_note (keys_selfdestruct t1))
     intro x hx
     rw [Proofs.EvmHost.noteAddr_js]
     simp only [opAddrs, List.mem_cons, List.mem_singleton, List.not_mem_nil, or_false] at hx
